@@ -10,8 +10,8 @@ CLAIMED = {
          "the universal statement is a theorem about the model of the emitters and of header.rs; the model is tied to the code on every run", "DESIGN.md 7 C02"),
  "C03": ("Coq: C03_frame for every emitted module, type and input; families are two renderings of one IR body (K2) and both compiled families are run on every input (K3)",
          "frame theorem holds for all inputs, valid or not; independence of suffix/offset is checked on the real decoders", "DESIGN.md 7 C03"),
- "C04": ("Coq: every runtime reader is total (Ok or Err) on every buffer; cursor never leaves the buffer; whole-decoder totality PARTIAL (tied by K3 on hostile inputs; native stack = finding F9)",
-         "reader-level theorems + correspondence on truncations / boundary words / huge counts + deep-chain probe", "DESIGN.md 7 C04"),
+ "C04": ("Coq: C04_no_panic -- for every specification satisfying the decidable sup4_b, every declared type, EVERY byte string and fuel, the emitted decoder never panics (no advance/slice/get out of bounds, no stuck state) and Ok results have the declared shape (preservation by induction on fuel over the emitted fragment; wire_size of decoded values defined and a multiple of 4); every reader total; cursor stays inside; termination PARTIAL (K3 on hostile inputs); native stack = finding F9 observed by the deep-chain probe",
+         "no-panic is a theorem for all inputs over the model tied by K2/K3; sup4_b measured on every corpus specification", "DESIGN.md 0 and 7 C04"),
  "C05": ("Coq: count > max and count > bytes present are InvalidLength, count = max accepted, for all buffers (reader level); bound carried by the emitted call (K2); prefixes PARTIAL (K3 + exhaustive byte-granular prefixes); F3 refuted",
          "reader-level theorems for all inputs; emitted bounds tied by K2 on every bounded declarator form", "DESIGN.md 7 C05"),
  "C06": ("Coq: invalid boolean / option marker / enum word / non-UTF-8 rejected with the right Error for every word; union arm selection PARTIAL (semantics of emitted patterns tied by K2+K3, searched on every declared label)",
